@@ -481,6 +481,17 @@ TRICKY_STRINGS = ["cafe\u0301", "Zoe\u0308", "n\u0303", "\u1100\u1161\u11a8", "\
                   "\U0001f469\u200d\U0001f4bb", "\u0000", "a\u0000b", "\ud55c", "\u00c5ngstr\u00f6m", "A\u030angstro\u0308m"]
 
 
+def lookalike_bytes():
+    """byte strings that coincide with an encoding of something else: their base64url text is lower-case hex / digits / a word, or they ARE base64 / hex / JSON text"""
+    import base64, json as _json
+    out = []
+    for t in ("deadbeef" * 4, "0123456789abcdef" * 2, "a" * 32, "cafe" * 8, "00000000" * 4, "ffffffff" * 4, "abcdef01" * 8, "1234567890123456", "nullnull", "truefalse000", "undefined000"):
+        out.append(base64.urlsafe_b64decode(t + "=" * (-len(t) % 4)))
+    for inner in (b"AB", b"credential-id", bytes(16)):
+        out += [base64.urlsafe_b64encode(inner), base64.urlsafe_b64encode(inner).rstrip(b"="), inner.hex().encode(), _json.dumps({"id": inner.hex()}).encode()]
+    return out
+
+
 def interleaved(run_a, run_b, repo=None, max_events=3000, every=1):
     """Deterministic two-thread schedule exploration at line granularity: run_a() executes on the calling thread under a trace hook which, at every
     `line` event inside /repo's webauthn package (every `every`-th one), lets ANOTHER thread execute run_b() to completion before run_a continues.
